@@ -275,6 +275,7 @@ type env struct {
 	lastWritten map[string]*types.ValidatorSet // membership -> set most recently written under that membership's key
 	pruned      map[uint64]bool                // heights whose state record the harness asked to prune
 	prunes      [][2]uint64                    // (from', to) of every prune so far
+	toExisted   []bool                         // per prune: the state of height `to` was saved (and kept) when it ran
 	hashOf      map[string]common.Hash         // membership -> ValidatorSet.Hash()
 	deletedBy   map[string]int                 // membership -> index of the prune after which its record was gone
 	txNonce     uint64
@@ -402,6 +403,11 @@ func (e *env) where(h uint64, pidx int) string {
 	case h == 0:
 		return "at-genesis"
 	case h == p[1]:
+		if pidx < len(e.toExisted) && !e.toExisted[pidx] {
+			// the state of height `to` was saved only after the prune ran (range reaching beyond the head):
+			// PruneState had no record of it to protect; for the prune it is a state above everything it saw
+			return "above-to"
+		}
 		return "at-to"
 	case h < p[0]:
 		return "below-from"
@@ -732,6 +738,7 @@ func (e *env) opPrune(from, to uint64) {
 		f = 1
 	}
 	e.prunes = append(e.prunes, [2]uint64{f, to})
+	e.toExisted = append(e.toExisted, e.saved[to] != nil && !e.pruned[to])
 	for k, hsh := range e.hashOf {
 		if presentBefore[k] && rawdb.ReadConsensusValidatorsInfo(e.db, hsh) == nil {
 			e.deletedBy[k] = len(e.prunes) - 1
